@@ -44,6 +44,22 @@ def gen_updates(rng, prefix, kinds, count, nthreads, nops, mode, sums=0.0, big=F
         out.append(conc.Scn("%s%d" % (prefix, i), kind, rnd_words(rng, 40), ths, m, o))
     return out
 
+def gen_growth(rng, prefix, count, runs, sums=0.0, readers=0):
+    """many colliding updaters on a tiny probe palette: the table is created, attached to, re-sliced
+    to its capacity and re-allocated (make+copy) while Sums / other updates are in flight"""
+    out = []
+    for i in range(count):
+        kind = rng.choice(["jdkadd", "jdkadd", "jdkf"])
+        used, ths = [], []
+        for t in range(rng.choice([4, 5, 6])):
+            ths.append([("s" if rng.random() < sums else upd(rng, used, kind)) for _ in range(rng.choice([4, 5, 6]))])
+        for t in range(readers):
+            ths.append(["s"] * rng.choice([2, 3, 4]))
+        words = [rng.choice([1, 2, 3, 1, 2]) for _ in range(120)]
+        out.append(conc.Scn("%s%d" % (prefix, i), kind, words, ths, "rand %d %d" % (runs, rng.randint(1, 1 << 30)),
+                            {"maxcells": rng.choice([4, 8, 8]), "maxsteps": 20000}))
+    return out
+
 def rand_mode(tier, q, t):
     return lambda r: "rand %d %d" % (scale(tier, q, t), r.randint(1, 1 << 30))
 
@@ -53,6 +69,7 @@ def gen_c02(tier, rng):
     s += gen_updates(rng, "b", ["jdkf"], scale(tier, 8, 60), [2, 3], [1, 2, 3], "dfs 2 %d" % scale(tier, 6000, 80000))
     s += gen_updates(rng, "c", ["jdkadd", "jdkadd", "jdkf"], scale(tier, 24, 300), [3, 4, 5], [2, 3, 4], rand_mode(tier, 400, 4000), big=True)
     s += gen_updates(rng, "d", ["rc", "atomic", "atomicf", "mutexadd"], scale(tier, 12, 100), [2, 3], [2, 3], "dfs 2 %d" % scale(tier, 1500, 20000), big=True)
+    s += gen_growth(rng, "g", scale(tier, 12, 100), scale(tier, 400, 4000))
     return s
 
 def gen_c09(tier, rng):
@@ -61,6 +78,7 @@ def gen_c09(tier, rng):
     s += gen_updates(rng, "b", ["jdkf"], scale(tier, 8, 60), [2, 3], [2, 3], "dfs 2 %d" % scale(tier, 6000, 80000), sums=0.35)
     s += gen_updates(rng, "c", ["jdkadd", "jdkadd", "jdkf"], scale(tier, 24, 300), [3, 4, 5], [2, 3, 4], rand_mode(tier, 400, 4000), sums=0.3)
     s += gen_updates(rng, "d", ["rc", "atomic", "atomicf", "mutexadd"], scale(tier, 10, 80), [2, 3], [2, 3], "dfs 2 %d" % scale(tier, 1500, 20000), sums=0.35)
+    s += gen_growth(rng, "g", scale(tier, 16, 120), scale(tier, 500, 4000), sums=0.0, readers=2)
     return s
 
 ALLOPS = ["a", "a", "a", "i", "d", "s", "s", "r", "q", "w"]
